@@ -733,22 +733,47 @@ theorem enqueueQ_queue (b : Bool) (e : Ev) (s : St) : queueRel s (enqueueQ b e s
   · exact ⟨[], by simp⟩
 
 theorem hooksFlagged_quiet (u : UEnv) (m : Machine) : HooksQuiet (hooksFlagged u m) :=
-  ⟨hooksFlagged_ok u m, ⟨enqueueQ_core false, enqueueQ_core false⟩⟩
+  ⟨hooksFlagged_ok u m, ⟨enqueueQ_core true, enqueueQ_core true⟩⟩
 theorem hooksAsyncStart_quiet (u : UEnv) (m : Machine) : HooksQuiet (hooksAsyncStart u m) :=
   ⟨hooksAsyncStart_ok u m, ⟨enqueueQ_core false, enqueueQ_core false⟩⟩
 theorem hooksAsync_quiet (u : UEnv) (m : Machine) : HooksQuiet (hooksAsync u m) :=
   ⟨hooksAsync_ok u m, ⟨fun e _ => enqueueQ_core true e _, fun e _ => enqueueQ_core true e _⟩⟩
 
 theorem hooksFlagged_errors (u : UEnv) (m : Machine) : HooksRel errorsRel (hooksFlagged u m) :=
-  ⟨enqueueQ_errors false, enqueueQ_errors false⟩
+  ⟨enqueueQ_errors true, enqueueQ_errors true⟩
 theorem hooksAsync_errors (u : UEnv) (m : Machine) : HooksRel errorsRel (hooksAsync u m) :=
   ⟨fun e _ => enqueueQ_errors true e _, fun e _ => enqueueQ_errors true e _⟩
 theorem hooksFlagged_status (u : UEnv) (m : Machine) : HooksRel statusRel (hooksFlagged u m) :=
-  ⟨enqueueQ_status false, enqueueQ_status false⟩
+  ⟨enqueueQ_status true, enqueueQ_status true⟩
 theorem hooksAsync_status (u : UEnv) (m : Machine) : HooksRel statusRel (hooksAsync u m) :=
   ⟨fun e _ => enqueueQ_status true e _, fun e _ => enqueueQ_status true e _⟩
 theorem hooksFlagged_queue (u : UEnv) (m : Machine) : HooksRel queueRel (hooksFlagged u m) :=
-  ⟨enqueueQ_queue false, enqueueQ_queue false⟩
+  ⟨enqueueQ_queue true, enqueueQ_queue true⟩
+
+/-- the queue only grows at its end, and by MARKED entries only (sync: everything enqueued while
+    `_is_processing` is set is recorded in `_raised_in_drain`) -/
+def markedRel (s s' : St) : Prop := ∃ added, s'.queue = s.queue ++ added ∧ ∀ q ∈ added, q.self = true
+theorem markedRel_eng : EngRel markedRel where
+  refl := fun _ => ⟨[], by simp, by simp⟩
+  trans := by
+    rintro a b c ⟨x, hx, fx⟩ ⟨y, hy, fy⟩
+    refine ⟨x ++ y, by rw [hy, hx, List.append_assoc], ?_⟩
+    intro q hq
+    rcases List.mem_append.1 hq with h | h
+    · exact fx q h
+    · exact fy q h
+  ctx := fun _ _ => ⟨[], by simp, by simp⟩
+  trace := fun _ _ => ⟨[], by simp, by simp⟩
+  err := fun _ _ => ⟨[], by simp, by simp⟩
+  cfg := fun _ _ => ⟨[], by simp, by simp⟩
+  hist := fun _ _ => ⟨[], by simp, by simp⟩
+  complete := by intro s; unfold complete markedRel; split <;> exact ⟨[], by simp, by simp⟩
+theorem enqueueQ_marked (e : Ev) (s : St) : markedRel s (enqueueQ true e s) := by
+  unfold enqueueQ markedRel; split
+  · exact ⟨[⟨e, true⟩], rfl, by simp⟩
+  · exact ⟨[], by simp, by simp⟩
+theorem hooksFlagged_marked (u : UEnv) (m : Machine) : HooksRel markedRel (hooksFlagged u m) :=
+  ⟨enqueueQ_marked, enqueueQ_marked⟩
 
 theorem noConfigErrors_mkHooks (u : UEnv) (m : Machine) (sync : Bool) (snd sndRaise : Snd) :
     NoConfigErrors (mkHooks u m sync snd sndRaise) ↔
@@ -1342,21 +1367,29 @@ theorem syncProcessed_status (m : Machine) (u : UEnv) (e : Ev) (s : St) :
     (processEvent (hooksFlagged u m) .sync m u e (emit ("#recv:" ++ e.type) s))
   exact statusRel_eng.trans (a := emit ("#recv:" ++ e.type) s) h1 h2
 
-/-- the failing branch of the sync drain loop: it returns at once with the state as processing left it -/
-theorem drainLoop_failed (m : Machine) (u : UEnv) (budget : Nat) (s : St) (q : QEv) (rest : List QEv)
-    (hq : s.queue = q :: rest) (hrun : s.status = "running")
+theorem syncProcessed_eq_drainMacro (m : Machine) (u : UEnv) (e : Ev) (s : St) :
+    syncProcessed m u e s = drainMacro m u e s := rfl
+
+/-- **what one macrostep of the sync drain does to the queue**: it appends, and only MARKED entries -/
+theorem syncProcessed_marked (m : Machine) (u : UEnv) (e : Ev) (s : St) :
+    ∃ added, (syncProcessed m u e s).queue = s.queue ++ added ∧ ∀ q ∈ added, q.self = true := by
+  have h1 := processEvent_rel markedRel_eng (hooksFlagged u m) (hooksFlagged_marked u m) .sync m u e
+    (emit ("#recv:" ++ e.type) s)
+  have h2 := transientLoop_rel markedRel_eng (hooksFlagged u m) (hooksFlagged_marked u m) .sync m u m.maxIterations
+    (processEvent (hooksFlagged u m) .sync m u e (emit ("#recv:" ++ e.type) s))
+  exact markedRel_eng.trans (a := emit ("#recv:" ++ e.type) s) h1 h2
+
+/-- the failing branch of the sync drain loop (the head is processed — it does not trip the bound — and its
+    macrostep fails): the loop returns at once with the state as processing left it -/
+theorem drainLoop_failed (m : Machine) (u : UEnv) (fuel c : Nat) (s : St) (q : QEv) (rest : List QEv)
+    (hq : s.queue = q :: rest) (hrun : s.status = "running") (ht : syncTrips m c q = false)
     (he : (syncProcessed m u q.ev { s with queue := rest }).err ≠ none) :
-    drainLoop m u (budget + 1) s = syncProcessed m u q.ev { s with queue := rest } := by
-  have hsome : (syncProcessed m u q.ev { s with queue := rest }).err.isSome = true := by
+    drainLoop m u (fuel + 1) c s = syncProcessed m u q.ev { s with queue := rest } := by
+  have hsome : (drainMacro m u q.ev { s with queue := rest }).err.isSome = true := by
     cases hh : (syncProcessed m u q.ev { s with queue := rest }).err with
     | none => exact absurd hh he
-    | some _ => rfl
-  cases s with
-  | mk cfg hist queue status trace err ctx rd errors =>
-    simp only at hq hrun
-    subst hq; subst hrun
-    unfold syncProcessed at hsome ⊢
-    simp only [drainLoop, ne_eq, not_true_eq_false, if_false]
-    rw [if_pos hsome]
+    | some _ => rw [← syncProcessed_eq_drainMacro, hh]; rfl
+  rw [drainLoop_step m u fuel c s q rest hq hrun ht, if_pos hsome]
+  rfl
 
 end XSM
